@@ -20,7 +20,7 @@ CLAIMED = {
               'strided or cropped views; copy and in-place forms), a fit / OPD-update / re-fit history, DispersiveTilt elements of trace/dispersion '
               'order 1-3 on both sides of the reference wavelength mixed with Tilt elements (also re-pointed by their owner after use), per-axis '
               'pupil sampling, output masks, one segment steered off the detector, the same fields listed in reverse order, fit / rescale / '
-              're-fit histories, an FFT attempt on the tilt-carrying wavefront before the judged DFT, an in-place fit refused because the OPD cannot be written (then the plane used as it is and through the copy form) -- under cache-size faults, and compared with the eager twin (every tilt as '
+              're-fit histories, an FFT attempt on the tilt-carrying wavefront before the judged DFT, an in-place fit refused because the OPD cannot be written (then the plane used as it is and through the copy form), a Tilt plane re-pointed by its owner between two uses -- under cache-size faults, and compared with the eager twin (every tilt as '
               'an OPD ramp in a monolithic pupil) on the samples every Field of both evaluates. Further oracles: Field.shift and the '
               'observed window placement equal the statement\'s displacement (focal_length*angle/du*oversample per axis, +x to increasing '
               'row, +y to decreasing column) and are additive and order-independent; fit_tilt leaves zero least-squares tip/tilt, keeps '
@@ -38,7 +38,7 @@ CLAIMED = {
               'only, no OPD, boolean / integer masks, non-contiguous arrays --, monolithic or 2-4 segment masks with overlapping bounding boxes, '
               'Tilt planes, fitted and rescaled pupils, slits, generic pupil-typed planes, the amp= alias, attribute updates, caller writes into OPD / '
               'amplitude arrays and refills of mask buffers between multiplies, all four call forms), optionally a DFT propagation (random shape, prop_shape, oversampling, output mask, per-axis pixels), an Image '
-              'plane and a propagation back; series of short-lived pupils and wavefronts built, read and dropped inside one step. After every step the public views are read: field and intensity are compared with the dense '
+              'plane and a propagation back; series of short-lived pupils and wavefronts built, read and dropped inside one step; planes derived at the same sampling (rescale by 1, resample to the own pixel scale, copy) edited by the caller; assignments a plane may refuse. After every step the public views are read: field and intensity are compared with the dense '
               'zero-padded-plane model of the wavefront\'s documented fields (intensity == |field|^2 also where fields overlap), and '
               'insert(out, weight) is driven into accumulators of arbitrary shape (smaller, larger, other parity, missing the wavefront '
               'entirely) and arbitrary prior content (fault F2) and must leave before + weight*intensity and return the same array; every view is read '
@@ -61,7 +61,7 @@ CLAIMED = {
               'table parsed at run time from the documentation; refused steps are bracketed by byte snapshots of both operands; '
               'a new wavefront has the type it was given (none when given none) and so has every plane built with an explicit ptype= object; '
               'refused type assignments, pupils without sampling information, series of planes built by name, applied once and dropped, and planes / wavefronts '
-              'saved by a second interpreter with another string-hash seed and loaded here are part of the programs; '
+              'saved by a second interpreter with another string-hash seed and loaded here, a segmented pupil (one field per segment), and field-less wavefronts from Wavefront.empty (type by name, as an object, or omitted) are part of the programs; '
               'each caller\'s interleaved outcomes must equal its solo run. A directed prelude guarantees all 15 cells, the three '
               'propagation cases and every class x allowed type are exercised on every run. Exploration, not proof: the type '
               'machine is finite (and the prelude covers it completely), the surrounding programs are sampled.'),
@@ -74,7 +74,7 @@ CLAIMED = {
               'grids of either parity and both growing and shrinking between iterations, oversampling 1-3, scalar or commensurate per-axis '
               'pixel scales, monolithic or segmented pupils of either parity) through propagate_fft with ONE scratch buffer reused across '
               'the loop: pre-filled with NaN/inf/garbage, stale from the previous wavelength afterwards, sized exactly as '
-              'lentil.scratch_shape advertises, larger, or one short, C- or Fortran-ordered or a window of a larger work area; refused calls '
+              'lentil.scratch_shape advertises, larger, or one short, C- or Fortran-ordered, single-precision (compared at 2e-5) or a window of a larger work area; refused calls '
               '(oversize shape -- also kept in a caller-owned integer array --, tilt-carrying wavefront from a Tilt plane / Wavefront(tilt=) / fitted pupil / '
               'DispersiveTilt / Grism, an image-plane result given tilt and sent back, short scratch), whole-grid images sent back to a pupil plane and judged like any hop, an out-of-regime quick look on the same wavefront first, the field view read and edited before a call are injected inside the loop, propagations are duplicated and the '
               'scratch re-dirtied between duplicates. Oracles: scratch result == no-scratch result; both == the real propagate_dft '
@@ -89,7 +89,7 @@ CLAIMED = {
               'shapes and out=, Zernike, array utilities, shapes, detector chain, seeded noise models, spectrum arithmetic and queries, a shared '
               'dispersive element used at several wavelengths, documented in-place operations on objects derived from shared ones, '
               'one-argument-varied repeats of calls, calls refused for invalid arguments, attribute-update paths, arguments kept in caller-owned '
-              'arrays (also the optional coordinate grids of the Zernike family), derivations through Material / path_* edited in place, Bayer collection at two oversampling factors, degenerate data (no signal, zero-sum, empty mask, a negative QE sample), and calls generated from a type-aware catalogue of the whole public surface with optional arguments, dtypes, layouts and '
+              'arrays (also the optional coordinate grids of the Zernike family), derivations through Material / path_* edited in place, Bayer collection at two oversampling factors, degenerate data (no signal, zero-sum, empty mask, a negative QE sample, complex frames), and calls generated from a type-aware catalogue of the whole public surface with optional arguments, dtypes, layouts and '
               'containers varied) are '
               'interleaved by a seeded scheduler together with cache-size changes/clears, global-RNG draws and reseeds, duplicate calls and '
               '(one run in four) read-only caller arrays. Oracles: byte snapshot of every store entry around every call (alias-aware '
@@ -129,7 +129,7 @@ CLAIMED = {
               'values, all four wavelength units) while a reader (same or second caller) issues integrate/bin/sample and composite '
               'linearity/additivity checks between any two edits (also in foreign units, with one option flipped, after value assignment or in-place '
               'writes through the value array), sometimes scaling in place the array a query returned and asking again; about 30% of edits are ones that must be refused (unsorted, duplicated or '
-              'non-positive resample grid, a bare number as the grid, touching/overlapping append, bad unit or method), crop limits a few ulp from live samples, non-finite pads taken off again -- the library\'s analogue of a crash between two '
+              'non-positive resample grid, a bare number as the grid, touching/overlapping append, bad unit or method), crop limits a few ulp from live samples, integer-typed wavelength grids, non-finite pads taken off again -- the library\'s analogue of a crash between two '
               'writes -- and accepted crops/trims/pads are duplicated. After EVERY step, accepted or refused, every spectrum must be '
               'well-formed (strictly increasing positive wavelengths, one value per wavelength, asarray() usable); each edit\'s post-state is '
               'predicted by a list model from the object\'s own public pre-state (closed-range crop, first-to-last-above-tolerance trim, '
@@ -144,7 +144,7 @@ CLAIMED = {
         text=('Seeded deterministic simulation in which the simulator owns numpy\'s global random generator: 2-4 callers issue seeded '
               'model calls (Poisson and Gaussian shot noise, read noise, dark current with/without fixed-pattern noise, rule-07 dark '
               'current, power-spectrum surface error on square and non-square masks of several dtypes; seeds as ints, numpy integers, uint32 arrays, lists '
-              'and tuples; shapes as lists, tuples and arrays; caller-owned full-shape rate maps; one seed list handed to several models; a high-dynamic-range frame; zero-noise readouts) and unseeded cosmic-ray frames in '
+              'and tuples; shapes as lists, tuples and arrays; caller-owned full-shape rate maps; one seed list handed to several models; a high-dynamic-range frame; zero-noise readouts; read-noise statistics over 1 500 seeds on regions of 1-4 pixels; every seeded model also evaluated in a second interpreter with another string-hash seed) and unseeded cosmic-ray frames in '
               'an interleaved schedule while environment events draw from or reseed the global generator between steps, calls are '
               'duplicated, and signals that must be refused (a negative pixel -- also one that is tiny next to the frame peak --, an all-negative '
               'frame, a pixel above 9.22e18, a frame its owner made illegal in place between two calls) and dark rates at floating-point edges (just '
